@@ -374,3 +374,32 @@ def r13_7_mutable_keys(ctx: Ctx) -> RuleResult:
         else:
             rr.fail(f.qual, f"inserts into a shared cache under key `{k}` ({'/'.join(mutable)}) without first excluding keys that are not read-only: a culture modified after its first use keeps getting the stale entry", ctx.loc(f, node))
     return rr
+
+
+@rule("C13")
+def r13_8_lazy_fills_read_no_settable_state(ctx: Ctx) -> RuleResult:
+    """A lazily filled slot is computed once and served forever.  That is only history-independent if what it is computed from
+    cannot change: a fill expression that reads a property for which the package defines a *setter* (mutable configuration such
+    as the default culture of new threads) freezes whatever the setting was when the first caller happened to ask."""
+    from ..memo import lazy_fills, settable_properties
+
+    rr = RuleResult("R13.8", "lazily filled slots are computed from state that has no setter (nothing settable of another object is frozen into a cache)", min_instances=60)
+    settable = settable_properties(ctx.M)
+    rr.notes.append(f"properties with setters: {sorted(settable)}")
+    for f, node, slot, vals in lazy_fills(ctx.M):
+        rr.inst()
+        hit = None
+        for v in vals:
+            for a in ast.walk(v):
+                if isinstance(a, ast.Attribute) and a.attr in settable and isinstance(a.ctx, ast.Load):
+                    # a settable property of the *same object* that owns the slot is that object's own business (its setter
+                    # resets the dependent slots); state of another object / of the class is what gets frozen
+                    owner = slot.split(".")[0].replace("getattr(", "")
+                    if isinstance(a.value, ast.Name) and a.value.id == owner and not slot.startswith("getattr("):
+                        continue
+                    hit = a
+        if hit is not None:
+            rr.fail(f.qual, f"the lazily cached `{slot}` is computed from `{unparse(hit)}`, a settable property: the first reader's value is kept although the setting can change afterwards", ctx.loc(f, node))
+        else:
+            rr.ok()
+    return rr
